@@ -211,6 +211,8 @@ def run(ctx, P):
     r2.interface_rules(ctx, P, "C09h", want=("registry",))
     r2.status_never_forgotten(ctx, P, "C09i")
     r2.resend_goes_out_on_the_family_it_was_built_for(ctx, P, "C09j")
+    r2.goodbye_independent_of_reply_and_state_order(ctx, P, "C09k")
+    r2.both_families_every_interface(ctx, P, "C09l")
     clause_a(ctx, P)
     clause_b(ctx, P)
     clause_c(ctx, P)
